@@ -17,8 +17,9 @@ package main
 // comments, options, markers, hashed hosts - also with a key type field that names another algorithm (the line
 // parsers ignore that field); and files of 2..6 such entries (ops akeys / khosts: well-formed blobs with a layout
 // and the spec checker, malformed ones model = implementation only).
-// Tags end in +kmodel (every key of the case is computed by the model from its bytes) or +koracle (at least one
-// key of the case is of an algorithm C02's model does not cover and comes from the recorded answer).
+// The kind of EVERY SSH case (also those of c06.go) ends in +kmodel (every key blob of the case is computed by the model
+// from its bytes) or +koracle (at least one blob of the case is of an algorithm C02's model does not cover and comes
+// from the recorded answer): c06KTagRows.
 
 import (
 	"bytes"
@@ -320,6 +321,19 @@ func c06RowIs(x Sx, blob []byte) bool {
 	return ok && bytes.Equal(b, blob)
 }
 
+// c06KTagRows: the suffix of a case's kind - are all key blobs of the case (rows of c06Blobs) computed by the model?
+func c06KTagRows(rows SL) string {
+	all := true
+	for _, row := range rows {
+		if r, ok := row.(SL); ok && len(r) > 0 {
+			if b, ok := r[0].(SB); ok {
+				all = all && c06BlobModelled(b)
+			}
+		}
+	}
+	return c06KTag(all)
+}
+
 func c06KeyblobCase(c *Ctx, tag string, blob []byte) {
 	b64 := base64.StdEncoding.EncodeToString(blob)
 	rows := SL{}
@@ -347,13 +361,15 @@ func genC06SSHKeys(c *Ctx) {
 	good := c06GoodKeys(r)
 	bad := c06BadKeys(r, good)
 	if !c.Thorough() {
-		// quick tier: every kind of damage once per algorithm, the rest sampled
+		// quick tier: the boundary lists (exponents, moduli, sizes, curves, points) always whole; of the generic damage
+		// (cuts, trailing octets, other algorithm names, length fields) six per kind and algorithm always, the rest sampled
 		var keep []c06Key
 		seen := map[string]int{}
 		for _, k := range bad {
 			id := k.name + "/" + k.typ
 			seen[id]++
-			if seen[id] <= 6 || r.Intn(4) == 0 {
+			generic := strings.HasPrefix(k.name, "cut-") || strings.HasPrefix(k.name, "length-") || k.name == "wrong-algo" || k.name == "trailing"
+			if !generic || seen[id] <= 6 || r.Intn(4) == 0 {
 				keep = append(keep, k)
 			}
 		}
@@ -409,21 +425,19 @@ func genC06SSHKeys(c *Ctx) {
 	// ---- every blob: alone, in an authorized_keys line, in a known_hosts line ----
 	for _, k := range append(append([]c06Key{}, good...), bad...) {
 		blob := k.blob()
-		kt := c06KTag(c06BlobModelled(blob))
 		c06KeyblobCase(c, k.name, blob)
 		al, akey := authLine(k, k.typ)
-		c06LineCase(c, "key-"+k.name+kt, false, []byte(al), k.valid, "", akey)
+		c06LineCase(c, "key-"+k.name, false, []byte(al), k.valid, "", akey)
 		hl, hkey, hh := hostsLine(k, k.typ)
-		c06LineCase(c, "key-"+k.name+kt, true, []byte(hl), k.valid, hh, hkey)
+		c06LineCase(c, "key-"+k.name, true, []byte(hl), k.valid, hh, hkey)
 	}
 	// the key type field of the line names another algorithm than the blob: the line parsers never look at it
 	for _, k := range good {
 		other := good[r.Intn(len(good))].typ
-		kt := c06KTag(c06BlobModelled(k.blob()))
 		al, akey := authLine(k, other)
-		c06LineCase(c, "key-type-field"+kt, false, []byte(al), true, "", akey)
+		c06LineCase(c, "key-type-field", false, []byte(al), true, "", akey)
 		hl, hkey, hh := hostsLine(k, other)
-		c06LineCase(c, "key-type-field"+kt, true, []byte(hl), true, hh, hkey)
+		c06LineCase(c, "key-type-field", true, []byte(hl), true, hh, hkey)
 	}
 	// ---- files: well-formed entries of every algorithm (layout + spec checker) ----
 	var modelled []c06Key
@@ -438,15 +452,13 @@ func genC06SSHKeys(c *Ctx) {
 	}
 	for _, op := range []string{"akeys", "khosts"} {
 		for i := 0; i < nf; i++ {
-			pool, tag := modelled, "+kmodel"
+			pool := modelled
 			if i%3 == 2 {
-				pool, tag = good, "+kany"
+				pool = good
 			}
 			crlf := r.Bool()
-			allModel := true
 			entry := func() sshItem {
 				k := pool[r.Intn(len(pool))]
-				allModel = allModel && k.modeled
 				if op == "khosts" {
 					l, key, hh := hostsLine(k, k.typ)
 					return sshItem{kind: 0, line: l, key: key, hosts: hh}
@@ -458,10 +470,7 @@ func genC06SSHKeys(c *Ctx) {
 				return sshItem{kind: 0, line: l, key: key}
 			}
 			its := c06SSHLayout(r, 2+r.Intn(5), crlf, entry)
-			if tag == "+kany" {
-				tag = c06KTag(allModel)
-			}
-			c06SSHLayoutCase(c, op, "keys"+tag, its, crlf, []int{1, 1, 0, 2}[r.Intn(4)])
+			c06SSHLayoutCase(c, op, "keys", its, crlf, []int{1, 1, 0, 2}[r.Intn(4)])
 		}
 		// one entry of every good key, in order: the report lists them all
 		var its []sshItem
@@ -474,18 +483,16 @@ func genC06SSHKeys(c *Ctx) {
 				its = append(its, sshItem{kind: 0, line: key, key: key})
 			}
 		}
-		c06SSHLayoutCase(c, op, "keys-all+koracle", its, false, 1)
+		c06SSHLayoutCase(c, op, "keys-all", its, false, 1)
 		// ---- files with a malformed blob among good entries: no layout, model = implementation ----
 		for i := 0; i < nf; i++ {
 			var lines []string
-			allModel := true
 			pos, n := r.Intn(3), 3
 			for j := 0; j < n; j++ {
 				k := modelled[r.Intn(len(modelled))]
 				if j == pos {
 					k = bad[r.Intn(len(bad))]
 				}
-				allModel = allModel && c06BlobModelled(k.blob())
 				if op == "khosts" {
 					l, _, _ := hostsLine(k, k.typ)
 					lines = append(lines, l)
@@ -494,7 +501,7 @@ func genC06SSHKeys(c *Ctx) {
 					lines = append(lines, l)
 				}
 			}
-			c06SSHCase(c, op, "keys-malformed"+c06KTag(allModel), c06RenderLines(lines, false, 1), nil, false, 1)
+			c06SSHCase(c, op, "keys-malformed", c06RenderLines(lines, false, 1), nil, false, 1)
 		}
 	}
 }
